@@ -121,6 +121,20 @@ def rrunChunksE (I : Inner) (force : Bool) : RSt → List (List Nat) → Option 
 def readAllE (I : Inner) (given : Option Name) (force : Bool) (cs : List (List Nat)) : Option (List Nat) :=
   (rrunChunksE I force (.waiting given []) cs).map (·.2)
 
+/-- `StreamWriter.write` with the exception of the inner stream writer (`codec.py:494`) -/
+def wrunChunksE (I : InnerEnc) : ESt → List (List Nat) → Option (ESt × List Nat)
+  | s, [] => some (s, [])
+  | s, c :: cs =>
+    match estepE I s c false with
+    | none => none
+    | some r =>
+      match wrunChunksE I r.1 cs with
+      | none => none
+      | some r' => some (r'.1, r.2 ++ r'.2)
+
+def writeAllE (I : InnerEnc) (given : Option Name) (cs : List (List Nat)) : Option (List Nat) :=
+  (wrunChunksE I (.waiting given []) cs).map (·.2)
+
 /-- the inner decoder of the encoding the reader settles on raises on the data `d` (non-final) -/
 def rerr (given : Option Name) (force : Bool) (d : List Nat) : Bool :=
   match choose given force d with
